@@ -17,6 +17,7 @@ const SigFallThrough = "C04-lower-tier-overrides-veto"
 type stash struct {
 	evidence  []int64
 	multiTier bool
+	drfOnly   bool // one tier, drf votes for preemption
 	gangAll   bool // one tier, gang votes for every action in the list
 	capOnly   bool // reclaim only, one tier, capacity voting in it: every eviction went through its vote
 }
@@ -93,9 +94,11 @@ func (w *World) evidence(choices []Choice) []int64 {
 		for _, o := range a.Obs {
 			out = append(out, o.ID, o.Status, o.JobReady)
 			out = append(out, o.QAlloc...)
+			out = append(out, o.JAlloc...)
 		}
 		out = append(out, int64(len(a.QOrder)))
 		out = append(out, a.QOrder...)
+		out = append(out, a.PAlloc...)
 	}
 	out = append([]int64{int64(n)}, out...)
 	ids := w.taskIDs()
@@ -104,6 +107,18 @@ func (w *World) evidence(choices []Choice) []int64 {
 		out = append(out, sched.EncTaskBrief(w.Tasks[id])...)
 	}
 	return out
+}
+
+func drfOnly(spec Spec) bool {
+	if len(spec.Tiers) != 1 {
+		return false
+	}
+	for _, p := range spec.Tiers[0] {
+		if p.Kind == KDrf && p.Pre {
+			return true
+		}
+	}
+	return false
 }
 
 func gangAll(spec Spec) bool {
@@ -186,7 +201,7 @@ func Harness() vh.Harness {
 			got = append(got, w.EncFinal()...)
 			got = append(got, -104, 1) // the session built from the spec is well-formed (model-side check)
 			got = append(got, -105, 1) // its ledgers are sums over its pods (model-side check)
-			last = stash{evidence: append(append([]int64{}, modelIn[:base]...), w.evidence(choices)...), multiTier: len(spec.Tiers) > 1, capOnly: capOnly(spec), gangAll: gangAll(spec)}
+			last = stash{evidence: append(append([]int64{}, modelIn[:base]...), w.evidence(choices)...), multiTier: len(spec.Tiers) > 1, capOnly: capOnly(spec), gangAll: gangAll(spec), drfOnly: drfOnly(spec)}
 			return modelIn, got
 		case 2:
 			reclaim := r.Bool()
@@ -236,6 +251,9 @@ func Harness() vh.Harness {
 		if last.capOnly {
 			law(107, last.evidence, "")
 		}
+		if last.drfOnly {
+			law(109, last.evidence, "")
+		}
 		if last.gangAll {
 			law(108, last.evidence, "")
 		}
@@ -247,7 +265,9 @@ func Harness() vh.Harness {
 		for i := 0; i < n; i++ {
 			r := rng.Fork()
 			var spec Spec
-			if i == 0 {
+			if i%6 == 2 {
+				spec = GenDrfStage(r)
+			} else if i == 0 {
 				spec = CapGapWitness()
 			} else if i%6 == 5 {
 				spec = GenCapStage(r)
